@@ -208,7 +208,7 @@ def library_variants(prog):
 
 
 # ---- templates ---------------------------------------------------------------------------------------------
-_MARK = re.compile(r"<<(.*?)>>")
+_MARK = re.compile(r"<<(?![\s<])(.*?)>>")      # `a << <<b>>`: the shift operator is not a marker
 
 
 def render(template, mode):
